@@ -366,6 +366,36 @@ example :
   · simp [erase, eraseList, eraseTag, zipStr, Scalar.toPV]
   · simp [encode, encodeList, encodeVals, allStr, Key.isStr, bind, Except.bind, pure, Except.pure, Except.toOption]
 
+/-- **the square commutes** on encodable tree-shaped values: encoding with `refs` and decoding with `refs` gives `t` back (T2),
+    encoding and decoding without gives `erase t` back (T1), and the two decoders were fed their own rendering (`render` /
+    `renderT`) of the SAME abstract encoding `skel t` — erasing the identities commutes with the whole round trip.
+    (Derived from T1, T2 and `erase_encode`; a direct proof that `decode ∘ renderT = erase ∘ decodeS` on arbitrary
+    well-formed encodings, which would make T1 a corollary of T2, is not given.) -/
+theorem erase_commutes_with_roundtrip (H : Nat → CV) (t : CV) (v : PV) (hc : Consistent H t) (hw : WfCV t = true)
+    (ht : TreeShaped [] t) (hv : erase t = some v) (he : Encodable v = true) :
+    (∃ tbl, decodeC [] (render (skel t)) = some (t, tbl)) ∧ decode (renderT (skel t)) = .ok v ∧
+    encode v = .ok (renderT (skel t)) ∧ (encodeC [] t).1 = render (skel t) := by
+  obtain ⟨j, hj, hd⟩ := Serialize.roundtrip v he
+  have hjt := erase_encode t v j hv hj
+  obtain ⟨tbl, h2, _⟩ := roundtrip_shared H t hc hw
+  have hct := encodeC_tree t [] ht
+  rw [hct] at h2
+  subst hjt
+  exact ⟨⟨tbl, h2⟩, hd, hj, hct⟩
+
+/-- non-vacuity of the five hypotheses: `{"k": (1,)}` with identities 1 (dict) and 2 (tuple) -/
+example :
+    let tup : CV := .node 2 .tuple [.leaf (.int 1)]
+    let t : CV := .node 1 (.dictStr ["k"]) [tup]
+    let H : Nat → CV := fun i => if i = 2 then tup else t
+    Consistent H t ∧ WfCV t = true ∧ TreeShaped [] t ∧ erase t = some (.dict [(.str "k", .tuple [.int 1])]) ∧
+      Encodable (.dict [(.str "k", .tuple [.int 1])]) = true := by
+  refine ⟨?_, ?_, ⟨by simp [ids, idsList], by simp⟩, ?_, ?_⟩
+  · simp [Consistent, ConsistentList]
+  · simp [WfCV, WfCVList, tagOk]
+  · simp [erase, eraseList, eraseTag, zipStr, Scalar.toPV]
+  · simp [Encodable, EncodableVals, EncodableList]
+
 end EraseLink
 
 /-! ## T3 (restore), the index component: the dispatch maps of every CoreVM state survive save/restore -/
